@@ -81,7 +81,7 @@ def run(ctx):
                    'np.allclose as the row-space membership test']
     blocks = []
     for rel, q, kind in COPIES:
-        fi = repo.func(rel, q)
+        fi = repo.nfunc(rel, q)
         ctx.analysed(fi)
         if kind == 'block':
             total = fi.params[2]
@@ -96,7 +96,7 @@ def run(ctx):
             block = fi.body
         blocks.append((fi, block, total))
     for rel, q in CALLERS:
-        fi = repo.func(rel, q)
+        fi = repo.nfunc(rel, q)
         ctx.analysed(fi)
         total = fi.params[2]
         ifs = [s for s in fi.body if isinstance(s, ast.If) and is_none_test(s.test, total)]
